@@ -55,7 +55,7 @@ pub struct Naming {
     next_unknown: S,
 }
 
-pub const NAMING_KINDS: u32 = 10;
+pub const NAMING_KINDS: u32 = 11;
 pub const UNKNOWN_BASE: S = 500_000;
 
 impl Naming {
@@ -118,6 +118,16 @@ impl Naming {
                     }
                 } else {
                     Slot::named(&format!("a{:07}", s))
+                }
+            }
+            // the crate's fresh-slot form again, spelled lazily and exactly ON the boundary: the name of
+            // the very next fresh slot ($f<n> with n = the thread's counter at this moment). Legal (it
+            // has never been constructed), and the crate has to move its counter past it.
+            10 => {
+                let probe = Slot::fresh().to_string();
+                match probe.strip_prefix("$f").and_then(|d| d.parse::<u64>().ok()) {
+                    Some(k) if k + 1 < (1 << 30) => Slot::named(&format!("f{}", k + 1)),
+                    _ => Slot::named(&format!("a{:07}", s)),
                 }
             }
             k => panic!("unknown naming {k}"),
